@@ -456,8 +456,13 @@ func (i *Interpreter) popSourceFragment() *sourceFragment {
 	f := i.sourceFragments[path]
 	i.src = i.src[:l-1]
 	delete(i.sourceFragments, path)
-	for _, decl := range f.program.Decls {
-		delete(i.knownPredicates, decl.DeclaredAtom.Predicate)
+	// What is known after the pop is what the remaining fragments declare. (The popped program's
+	// declarations include those it saw from earlier fragments: deleting them all forgot too much.)
+	i.knownPredicates = map[ast.PredicateSym]ast.Decl{}
+	for _, p := range i.src {
+		for _, decl := range i.sourceFragments[p].program.Decls {
+			i.knownPredicates[decl.DeclaredAtom.Predicate] = *decl
+		}
 	}
 	i.simpleStore = f.simpleCheckpoint
 	i.temporalStore = f.temporalCheckpoint
